@@ -44,13 +44,13 @@ type runner struct {
 	files    []uint64 // first index held by each entry file on disk, ascending (coverage / aiming only)
 
 	conflicts, conflictRotated, reopens, rotations, fullAfterReopenWithConflict int
-	sinceConflictRotated                                                       bool
-	crashCtx                                                                   any // set in crash cases: added to witnesses
-	trial                                                                      bool // candidate evaluation after a kill: record the first failure, report nothing
-	trialSig, trialWhat                                                        string
-	trialDetail                                                                any
-	curQuery                                                                   string
-	mutCount                                                                   func() int64
+	sinceConflictRotated                                                        bool
+	crashCtx                                                                    any  // set in crash cases: added to witnesses
+	trial                                                                       bool // candidate evaluation after a kill: record the first failure, report nothing
+	trialSig, trialWhat                                                         string
+	trialDetail                                                                 any
+	curQuery                                                                    string
+	mutCount                                                                    func() int64
 }
 
 func newRunner(c *vf.Ctx, id string, rw int, base string, salt uint64, check bool) *runner {
